@@ -212,7 +212,7 @@ CHECKS = {
          "writes with different options/precisions incl. huge floats and precisions above 15, write_file + read back) under "
          "ThreadSanitizer, the very first library use of the process being concurrent; each thread's transcript is compared with its "
          "serial run."),
-   note=TB + "The C memory model and libc internals are outside the model; TSan sees executed paths only.",
+   note=TB + "The C memory model and libc internals are outside the model; TSan sees executed paths only. The C++ layer is exercised by a second TSan harness (threads constructing, using and destroying their own Config objects); known finding C14:cpp-constructor-writes-global-handler (every Config constructor writes the process-wide fatal-error function pointer) is reproduced and classified per report on every run.",
    technique='kernel-decided theorems over translated static-object/import inventories + commutation theorem in Lean 4 + TSan transcript comparison', ref='§5 C14'),
  'C15': dict(
    text=("Locale state machine (process-wide radix, optional thread locale): C15_inside (radix '.' inside every read/write), C15_restore "
